@@ -132,7 +132,7 @@ def run(chk, w):
         if i.op == "store":
             g = asm.resolve(i["ptr"])
             if g is not None and g.op == "getelementptr" and g["idx"]:
-                b = asm.resolve(g["base"])
+                b = _array_base(asm, g)
                 if b is not None and b.op == "alloca" and b["aty"].startswith("["):
                     pk_stores.append((i, g, b))
     chk.floor("packet_buffer_stores", len(pk_stores), 1)
@@ -357,12 +357,27 @@ def delim_standalone(chk, w, rid):
         if i.op == "store":
             g = asm.resolve(i["ptr"])
             if g is not None and g.op == "getelementptr" and g["idx"]:
-                b = asm.resolve(g["base"])
+                b = _array_base(asm, g)
                 if b is not None and b.op == "alloca" and b["aty"].startswith("["):
                     pk_stores.append((i, g, b))
     if not pk_stores or not reads:
         raise AnalysisBroken("packet buffer stores / byte reads not found in %s" % asm.name)
     delim_rule(chk, asm, rid, cmps, reads, pk_stores, MAGIC)
+
+
+def _array_base(f, gep):
+    """the object a subscript finally indexes: follows `&array[0]` decays and casts (an array handed to an inlined helper as a pointer)"""
+    b = f.resolve(gep["base"])
+    for _ in range(4):
+        if b is None:
+            return None
+        if b.op == "bitcast":
+            b = f.resolve(b["a"])
+        elif b.op == "getelementptr" and not b["idx"] and b.get("off", 0) == 0:
+            b = f.resolve(b["base"])
+        else:
+            break
+    return b
 
 
 def _cond_loads(f, o, depth=0, seen=None):
